@@ -165,7 +165,7 @@ def _profile(cfg) -> gg.Profile:
 
 @st.composite
 def cases(draw):
-    r = draw(st.randoms(use_true_random=False))
+    r = core.rng(draw)
     cfg = envs.gen_cfg(r)
     cfg.pop("mode", None)
     if r.random() < 0.15:
